@@ -60,6 +60,36 @@ def inputs(ctx):
         if nt == 0:
             nodes.append({"t": "T", "s": [120]})
         ins.append({"id": "r%d" % k, "k": "spans", "nodes": nodes, "route": rng.choice(ROUTES)})
+    # spans that name a style class (all the same one) next to their own italics / bold / underline:
+    # what one span resolved to must not be handed to the next
+    for k in range(150 if ctx.quick else 6000):
+        nodes = []
+        for j in range(rng.randrange(2, 5)):
+            st = rng.choice([[], ["i"], ["b"], ["u"], ["i", "b"], ["i", "u"]])
+            nodes += [{"t": "T", "s": [ord(c) for c in "w%d " % j]}, {"t": "S", "on": True, "st": st, "cls": True},
+                      {"t": "T", "s": [ord(c) for c in rng.choice(["AAAA", "bb bb", "C"])]},
+                      {"t": "S", "on": False, "st": st, "cls": True}]
+            if rng.random() < 0.3:
+                nodes.append({"t": "BR"})
+        nodes.append({"t": "T", "s": [ord(c) for c in " end"]})
+        for r in ([["DFXP"], ["SAMI"], ["WebVTT"]] if k < 60 else [rng.choice(ROUTES)]):
+            ins.append({"id": "cl%d-%s" % (k, "-".join(r)), "k": "spans", "nodes": nodes, "route": r})
+    # the same streams as documents of the harness's own making in which every span spells out all three
+    # properties, also the ones that are off (font-style:normal ...)
+    base = [c["nodes"] for c in ctx._cases if any(n["t"] == "S" for n in c["nodes"])]
+    for k, nodes in enumerate(base if not ctx.quick else base[::3]):
+        for src in ("SAMI", "DFXP"):
+            for r in (["DFXP"], ["SAMI"], ["WebVTT"]):
+                if ctx.quick and (k + len(r[0])) % 2:
+                    continue
+                ins.append({"id": "x%d-%s-%s" % (k, src, r[0]), "k": "spans", "nodes": nodes, "route": r, "src": src})
+    # a caption that is italic as a whole through the style class it names, in a document that also has a
+    # style called "p" (DFXP writers)
+    plain = [c["nodes"] for c in ctx._cases if not any(n["t"] == "S" for n in c["nodes"])]
+    for k, inner in enumerate(plain[:40]):
+        wrapped = [{"t": "S", "on": True, "st": ["i"]}] + inner + [{"t": "S", "on": False, "st": ["i"]}]
+        for r in (["DFXP"], ["DFXP-single"], ["DFXP-legacy"]):
+            ins.append({"id": "cc%d-%s" % (k, r[0]), "k": "spans", "nodes": wrapped, "inner": inner, "route": r, "capclass": True})
     for d in corpus.readable_docs():
         ins.append({"id": "d-" + d, "k": "balanced", "doc": d})
     # every caption the SCC reader returns on random pop-on programs with italic preambles
@@ -90,7 +120,7 @@ def inputs(ctx):
     return ins
 
 
-def _set_from_nodes(nodes):
+def _set_from_nodes(nodes, capclass=False):
     desc_nodes = []
     for n in nodes:
         if n["t"] == "T":
@@ -98,13 +128,66 @@ def _set_from_nodes(nodes):
         elif n["t"] == "BR":
             desc_nodes.append(["b"])
         else:
-            desc_nodes.append(["s", n["on"], {KEY[x]: True for x in n["st"]}])
-    return build.caption_set({"langs": [{"lang": "en-US", "caps": [{"s": 1000000, "e": 2000000, "nodes": desc_nodes}]}]})
+            content = {KEY[x]: True for x in n["st"]}
+            if n.get("cls"):
+                content["class"] = "y"        # a style class that says nothing about italics / bold / underline
+            desc_nodes.append(["s", n["on"], content])
+    cap = {"s": 1000000, "e": 2000000, "nodes": desc_nodes}
+    styles = {"y": {"color": "red"}}
+    if capclass:
+        # the caption as a whole is italic through its own style class, next to a document-wide "p" style
+        cap["style"] = {"class": "narrator"}
+        styles["narrator"] = {"italics": True}
+        styles["p"] = {"color": "white"}
+    return build.caption_set({"langs": [{"lang": "en-US", "caps": [cap]}], "styles": styles})
 
 
-def project_nodes(caption):
+def _esc(text):
+    return text.replace("&", "&amp;").replace("<", "&lt;").replace(">", "&gt;")
+
+
+def _doc_from_nodes(nodes, kind):
+    """the node stream as a SAMI / DFXP document of the harness's own making, with every property of a
+    span spelled out - also the ones that are off (font-style:normal, font-weight:normal,
+    text-decoration:none)"""
+    from . import render
+    out = []
+    for n in nodes:
+        if n["t"] == "T":
+            out.append(_esc("".join(chr(c) for c in n["s"])))
+        elif n["t"] == "BR":
+            out.append("<br/>")
+        elif n["on"]:
+            i, b, u = "i" in n["st"], "b" in n["st"], "u" in n["st"]
+            if kind == "SAMI":
+                out.append('<span style="font-style:%s;font-weight:%s;text-decoration:%s;">' % (
+                    "italic" if i else "normal", "bold" if b else "normal", "underline" if u else "none"))
+            else:
+                out.append('<span tts:fontStyle="%s" tts:fontWeight="%s" tts:textDecoration="%s">' % (
+                    "italic" if i else "normal", "bold" if b else "normal", "underline" if u else "none"))
+        else:
+            out.append("</span>")
+    body = "".join(out)
+    if kind == "SAMI":
+        return render.sami_doc([("ENCC", "en-US")], [("1000", [("ENCC", body)]), ("2000", [("ENCC", "&nbsp;")])])
+    return render.dfxp_doc([("en-US", [('begin="00:00:01.000" end="00:00:02.000"', body)])])
+
+
+def project_nodes(caption, cs=None):
+    """cs given: a caption that is italic / bold / underlined as a whole (its own style or the class it
+    names) is projected with an enclosing span"""
     from pycaption import CaptionNode
     out = []
+    outer = []
+    if cs is not None:
+        st = dict(caption.style or {})
+        cls = st.get("class")
+        resolved = dict(cs.get_style(cls)) if cls else {}
+        resolved.update({k: v for k, v in st.items() if k != "class"})
+        outer = [k for k, name in KEY.items() if resolved.get(name)]
+    if outer:
+        inner = project_nodes(caption)
+        return [{"t": "S", "on": True, "st": outer}] + inner + [{"t": "S", "on": False, "st": outer}]
     for n in caption.nodes:
         if n.type_ == CaptionNode.TEXT:
             out.append({"t": "T", "s": [ord(c) for c in n.content]})
@@ -187,6 +270,17 @@ def tokens_dfxp(out):
                 toks.append({"k": "text", "s": [ord(c) for c in ch.tail]})
     if p is not None:
         walk(p)
+        # what the paragraph as a whole carries: its own attributes and the style it refers to
+        st = []
+        styles = {el.get(scan.XMLNS + "id"): el for el in root.iter(scan.TT + "style")}
+        ref = styles.get(p.get("style")) if p.get("style") else None
+        for el in (ref, p):
+            if el is None:
+                continue
+            if el.get(scan.TTS + "fontStyle") == "italic" and "i" not in st:
+                st.append("i")
+        if st:
+            toks = [{"k": "open", "st": st, "n": "p"}] + toks + [{"k": "close", "n": "p"}]
     return True, toks
 
 
@@ -245,7 +339,10 @@ def execute(inp):
             for c in cs.get_captions(lg):
                 caps.append(project_nodes(c))
         return {"k": "balanced", "caps": caps}
-    cs = _set_from_nodes(inp["nodes"])
+    if inp.get("src") in ("SAMI", "DFXP"):
+        cs = READERS[inp["src"]]().read(_doc_from_nodes(inp["nodes"], inp["src"]))
+    else:
+        cs = _set_from_nodes(inp["inner"] if inp.get("capclass") else inp["nodes"], inp.get("capclass", False))
     hops = []
     for w in inp["route"]:
         fmt = "DFXP" if w.startswith("DFXP") else w
@@ -258,7 +355,7 @@ def execute(inp):
                 lg = cs.get_languages()[0]
                 caps = cs.get_captions(lg)
                 hop["reads"] = True
-                hop["back"] = [n for c in caps for n in project_nodes(c)]
+                hop["back"] = [n for c in caps for n in project_nodes(c, cs if inp.get("capclass") else None)]
         except Exception as e:
             hop["err"] = type(e).__name__ + ": " + str(e)[:200]
             hop["wf"] = False
